@@ -243,7 +243,7 @@ func TopRepoFrame(skip int) string {
 	frames := runtime.CallersFrames(pc[:n])
 	for {
 		f, more := frames.Next()
-		if strings.Contains(f.Function, "github.com/robfig/soy/") && !strings.Contains(f.Function, "verif") {
+		if IsRepoFunc(f.Function) && !strings.Contains(f.Function, "verif") {
 			return ShortFunc(f.Function)
 		}
 		if !more {
@@ -251,6 +251,12 @@ func TopRepoFrame(skip int) string {
 		}
 	}
 	return "?"
+}
+
+// IsRepoFunc reports whether a function name (or a line of a stack dump) names code of the library under test: a
+// sub-package (github.com/robfig/soy/parse.x) or the root package (github.com/robfig/soy.ParseGlobals).
+func IsRepoFunc(fn string) bool {
+	return strings.Contains(fn, "github.com/robfig/soy/") || strings.Contains(fn, "github.com/robfig/soy.")
 }
 
 // ShortFunc strips the module path.
@@ -292,7 +298,7 @@ func StackSite(stack string) string {
 			seenPanic = true
 			continue
 		}
-		if strings.HasPrefix(l, "\t") || !strings.Contains(l, "github.com/robfig/soy/") {
+		if strings.HasPrefix(l, "\t") || !IsRepoFunc(l) {
 			continue
 		}
 		if strings.Contains(l, "verif") || strings.Contains(l, "errRecover") || strings.Contains(l, ".recover") {
